@@ -1,5 +1,7 @@
 import Mav.Model.Frame
 import Mav.Spec.Window
+import Mav.Spec.Frame
+import Mav.Spec.Crc
 /-
   MODEL of pkg/frame/reader.go (Reader.Read, V1Frame.unmarshal, V2Frame.unmarshal) over a
   *flat* item stream: bytes and positioned one-shot transport errors; end of list = EOF forever.
@@ -112,21 +114,23 @@ def unmarshalV2 (s : Stream) : Except PErr V2Frame × Stream :=
 /-- what the reader needs to know about a dialect message -/
 structure Codec where
   crcExtra : UInt8
+  specCrcExtra : UInt8 := crcExtra               -- oracle only: CRC_EXTRA by the spec recipe (C03)
   decode : Bool → Bytes → Msg.DecRes
 
 structure RCfg where
   H : Bytes → Bytes                              -- SHA-256 (parameter: theorems are generic in it)
   key : Option Bytes := none                     -- InKey
   dialect : Option (UInt32 → Option Codec) := none
-  specWindow : Bool := false                      -- driver only: evaluate the replay window by the SPEC (C07 oracle)
+  specWindow : Bool := false                     -- ORACLE switch (driver only, theorems assume false): every decision by its SPEC
+                                                 -- counterpart — window (C07), checksum (C02), signature input (C06), CRC_EXTRA (C03)
 
 structure RState where
   cur : UInt64 := 0                              -- curReadSignatureTime
 deriving Repr, DecidableEq
 
-/-- the replay-window refusal condition of reader.go, as extracted -/
-def windowRefuse (cur ts : UInt64) : Bool := cur > 0 && ts < cur - Gen.replayWindow
-def windowUpdate (cur ts : UInt64) : UInt64 := if ts > cur then ts else cur
+/-- the replay-window refusal condition and update of reader.go: regenerated (TIE-G, G-expr) -/
+abbrev windowRefuse := Gen.windowRefuse
+abbrev windowUpdate := Gen.windowUpdate
 
 /-- signature gate -/
 def sigGate (cfg : RCfg) (st : RState) (f : Frame) : Except PErr RState :=
@@ -139,7 +143,9 @@ def sigGate (cfg : RCfg) (st : RState) (f : Frame) : Except PErr RState :=
       match g.sig with
       | none => .error .sigMissing
       | some sg =>
-        match g.genSignature cfg.H key with
+        match (if cfg.specWindow then (match g.msg with
+                | .raw _ _ => .ok ((cfg.H (key ++ (Spec.specBytes (.v2 { g with sig := some [] })))).take 6)
+                | _ => .error .notRaw) else g.genSignature cfg.H key) with
         | .error _ => .error .sigWrong          -- unreachable: the message is raw here
         | .ok want =>
           if want != sg then .error .sigWrong
@@ -157,7 +163,7 @@ def dialectGate (cfg : RCfg) (f : Frame) : RRes :=
       match d id with
       | none => .frame f
       | some c =>
-        match f.genChecksum c.crcExtra with
+        match (if cfg.specWindow then .ok (UInt16.ofBitVec (Spec.crc16 (Spec.crcInput f ++ [c.specCrcExtra]))) else f.genChecksum c.crcExtra) with
         | .error _ => .panic
         | .ok sum =>
           if sum != f.crc then .perr .crcWrong else
